@@ -1,6 +1,5 @@
 # C19 — channel identity is unique and consistent everywhere it is reported.
-CLAIMED = False
-NOT_YET = "check under construction (nothing is claimed for it yet)"
+CLAIMED = True
 
 CFG = dict(
     rule="generated source configurations run through the REAL numbering code: 68% Lancero (0..12 faked cards with distinct device numbers in "
@@ -32,7 +31,7 @@ MANIFEST = dict(
          "error/feedback partners share the number, names (hence file names for every extension) are pairwise distinct; any separations whose "
          "numbering would collide are rejected (exact acceptance condition proved); channel groups cover exactly the numbers in use for every "
          "source kind; Abaco accepts iff no channel is in two groups and then numbers uniquely; row/column codes round-trip under the 16-bit "
-         "guards (guards shown necessary by a proved counterexample = the recorded known finding); the model passes the run-time oracle. "
+         "guards (guards shown necessary by a proved counterexample = the recorded known finding C19:rccode-overflow16); the model passes the run-time oracle. "
          "The model is compared with the real PrepareChannels/Sample/WriteControl START on generated configurations every run and the same oracle "
          "judges the real tables.",
     note="Trusted: Lean 4.33 kernel (axioms propext, Classical.choice, Quot.sound only; audited every run); the hand-written model is tied "
@@ -61,4 +60,5 @@ THEOREMS = [
     ("DastardV.Props.C19", "DastardV.C19.C19_header_identity_eq_status"),
     ("DastardV.Props.C19", "DastardV.C19.C19_model_passes_oracle"),
     ("DastardV.Props.C19", "DastardV.C19.C19_oracle_sound"),
+    ("DastardV.Props.C19", "DastardV.C19.fits16_iff"),
 ]
